@@ -189,7 +189,9 @@ def gen_stack(rng):
         net = [routed(net[0])]
     st = link + net + tr
     if rng.random() < 0.12:
-        idx = [i for i, l in enumerate(st) if l.split(":")[0] in CACHEABLE]
+        # not directly under Loopback: Loopback::write_serialization downcasts its inner PDU by pdu_type(), which a
+        # PDUCacher<IP> answers as IP (UBSan: invalid downcast) — the PDUCacher look-up finding of C13, not a matcher
+        idx = [i for i, l in enumerate(st) if l.split(":")[0] in CACHEABLE and not (i and st[i - 1].startswith("loopback"))]
         if idx:
             i = rng.choice(idx)
             st = st[:i] + ["cacher", routed(st[i])] + st[i + 1:]
